@@ -7,7 +7,7 @@
    CAS, both up to ""/null in string collections — same ids, values, references, sofas, members; (4) the second document
    is the first one at the infoset level (same elements in the same order, attributes as a set, children in order). *)
 From Cassis Require Import Base Offsets.
-From Cassis Require Import Heap Schema Canon Lex Reach XmiDoc Xmi CorrC04.
+From Cassis Require Import Heap Schema Canon Lex Reach XmiDoc Xmi XmiLoad XmiRt CorrC04.
 Open Scope Z_scope.
 
 Record case := mkCase {
@@ -34,6 +34,18 @@ Definition check_roundtrip (c : case) : bool :=
   | _ => false
   end.
 Definition check_resave (c : case) : bool := list_eqb xelem_eqb (k_doc c) (k_doc2 c).
+(* (5) the model of the reader (XmiLoad.load_xmi, owned by C05) loads the first document and the loaded CAS has the content
+   the implementation's loaded CAS has; (6) the first document satisfies the premise of the reader's theorem *)
+Definition check_model_load (c : case) : bool :=
+  match load_xmi (tab_parse (k_ftab c)) (k_schema c) false (k_doc c) with
+  | Ok c2 => match canon_loaded (k_schema c) c2 with
+             | Ok x => ccas_eqb (norm_xmi (k_schema c) x) (norm_xmi (k_schema c) (k_loaded c))
+             | _ => false end
+  | _ => false
+  end.
+Definition check_reader_ok (c : case) : bool :=
+  negb (wf_rtb (k_schema c) (k_cas c)) || reader_okb (tab_parse (k_ftab c)) (k_schema c) (k_doc c).
 Definition check_case (c : case) : bool :=
-  check_save c && check_load_is_denotation c && check_roundtrip c && check_resave c.
-Definition premises (c : case) : bool := wf_inb (k_schema c) (k_cas c).
+  check_save c && check_load_is_denotation c && check_roundtrip c && check_resave c && check_model_load c && check_reader_ok c.
+(* premises of the round-trip theorems of Props/C01.v: conditions on the schema and on the input CAS only *)
+Definition premises (c : case) : bool := wf_rtb (k_schema c) (k_cas c).
